@@ -32,6 +32,31 @@ fn check<D: Dataset + MutableDataset + Default>(name: &str, qs: &[Q]) where <D a
     let want1 = trip(&mut set.iter().filter(|q| q.0 == 1).map(|q| (q.0, q.1, q.2)));
     let got1 = trip(&mut d.union_graph().triples_matching([t(1)], Any, Any).map(|x| { let x = x.unwrap(); (num(&x.s()), num(&x.p()), num(&x.o())) }));
     if got1 != want1 { fail("union_graph().triples_matching([1],Any,Any)", qs, format!("{} got {:?} want {:?}", name, got1, want1)); }
+    // pattern queries through every view with constant, multi-valued, closure and negated matchers in each position
+    {
+        use sophia_api::term::matcher::Not;
+        let tnum = |x: &T| num(x);
+        macro_rules! views { ($what:expr, $sm:expr, $pm:expr, $om:expr, $pred:expr) => {{
+            let want_of = |sel: &dyn Fn(u8) -> bool| -> Vec<(u8, u8, u8)> { let mut v: Vec<(u8, u8, u8)> = set.iter().filter(|q| sel(q.3)).map(|q| (q.0, q.1, q.2)).filter($pred).collect(); v.sort(); v };
+            let got_u = trip(&mut d.union_graph().triples_matching($sm, $pm, $om).map(|x| { let x = x.unwrap(); (num(&x.s()), num(&x.p()), num(&x.o())) }));
+            if got_u != want_of(&|_| true) { fail("union_graph().triples_matching(..)", qs, format!("{} {}: got {:?} want {:?}", name, $what, got_u, want_of(&|_| true))); }
+            for gi in 0..3u8 {
+                let got_g = trip(&mut DatasetGraph::new(&d, g(gi)).triples_matching($sm, $pm, $om).map(|x| { let x = x.unwrap(); (num(&x.s()), num(&x.p()), num(&x.o())) }));
+                if got_g != want_of(&|x| x == gi) { fail("graph(g).triples_matching(..)", qs, format!("{} {} g={}: got {:?} want {:?}", name, $what, gi, got_g, want_of(&|x| x == gi))); }
+                let gg = g(gi); let sel = [None, gg.as_ref()];
+                let got_p = trip(&mut PartialUnionGraph::new(&d, sel).triples_matching($sm, $pm, $om).map(|x| { let x = x.unwrap(); (num(&x.s()), num(&x.p()), num(&x.o())) }));
+                if got_p != want_of(&|x| x == 0 || x == gi) { fail("partial_union_graph([default,g]).triples_matching(..)", qs, format!("{} {} g={}: got {:?} want {:?}", name, $what, gi, got_p, want_of(&|x| x == 0 || x == gi))); }
+                let got_c = trip(&mut PartialUnionGraph::new(&d, |x: GraphName<SimpleTerm>| x.map(|y| tnum(&y.into_term::<T>()) - 10 != gi).unwrap_or(true)).triples_matching($sm, $pm, $om).map(|x| { let x = x.unwrap(); (num(&x.s()), num(&x.p()), num(&x.o())) }));
+                if got_c != want_of(&|x| x != gi || x == 0) { fail("partial_union_graph(closure).triples_matching(..)", qs, format!("{} {} all but g={}: got {:?} want {:?}", name, $what, gi, got_c, want_of(&|x| x != gi || x == 0))); }
+            }
+        }}}
+        views!("([1],[1],*)", [t(1)], [t(1)], Any, |x: &(u8, u8, u8)| x.0 == 1 && x.1 == 1);
+        views!("([2],*,[1,2])", [t(2)], Any, [t(1), t(2)], |x: &(u8, u8, u8)| x.0 == 2);
+        views!("([1],*,closure o=2)", [t(1)], Any, |o: SimpleTerm| num(&o) == 2, |x: &(u8, u8, u8)| x.0 == 1 && x.2 == 2);
+        views!("(*,[1],Not([1]))", Any, [t(1)], Not([t(1)]), |x: &(u8, u8, u8)| x.1 == 1 && x.2 != 1);
+        views!("([1,2],[1],[2])", [t(1), t(2)], [t(1)], [t(2)], |x: &(u8, u8, u8)| x.1 == 1 && x.2 == 2);
+        views!("(closure s=2,*,[1])", |s: SimpleTerm| num(&s) == 2, Any, [t(1)], |x: &(u8, u8, u8)| x.0 == 2 && x.2 == 1);
+    }
     // contains() of every view agrees with its own enumeration (and hence with filtering the store)
     {
         let all_triples: Vec<(u8, u8, u8)> = vec![(1, 1, 1), (1, 1, 2), (2, 1, 1), (2, 1, 2), (1, 2, 1)];
